@@ -40,7 +40,7 @@ class An:
         for o in scn.ops:
             if o.startswith("in "):
                 self.input += unhx(o.split()[1])
-            elif o.startswith(("hq ", "vq ")):
+            elif o.startswith(("hq ", "vq ", "refval ")):
                 pass      # answer scripts are not operations: no trace line
             else:
                 k += 1
